@@ -289,11 +289,12 @@ def decode(b0: int, b1: int, b2: int, b3: int, b4: int, b5: int, b6: int, b7: in
     cs = res["CURSES"][1] if not raised else None
     cu_is_name = isinstance(cu, Name) and cu.table == "curtsies"
     cs_is_name = isinstance(cs, Name) and cs.table == "curses"
-    # (6) characters as themselves: evaluated under tracing (symbolic str), only when the result is text
+    # (6) characters as themselves: evaluated under tracing (symbolic str), per naming mode, when the result is text
     char_checked = False
-    char_ok = True
-    if not raised and not isnone and not cu_is_name and isinstance(cu, str) and n <= 4:
-        cpv = None
+    cu_char_ok = cs_char_ok = True
+    cu_text = (not raised) and (not isnone) and (not cu_is_name) and isinstance(cu, str)
+    cs_text = (not raised) and (not isnone) and (not cs_is_name) and isinstance(cs, str)
+    if n <= 4 and (cu_text or cs_text):
         if P["enc"] != "utf8" or n == 1:
             cpv = b0
         elif n == 2:
@@ -303,9 +304,10 @@ def decode(b0: int, b1: int, b2: int, b3: int, b4: int, b5: int, b6: int, b7: in
         else:
             cpv = (b0 - 0xF0) * 262144 + (b1 - 0x80) * 4096 + (b2 - 0x80) * 64 + (b3 - 0x80)
         char_checked = True
-        char_ok = len(cu) == 1 and ord(cu) == cpv
-        if not cs_is_name and isinstance(cs, str):
-            char_ok = char_ok and len(cs) == 1 and ord(cs) == cpv
+        if cu_text:
+            cu_char_ok = len(cu) == 1 and ord(cu) == cpv
+        if cs_text:
+            cs_char_ok = len(cs) == 1 and ord(cs) == cpv
     with NoTracing():
         B = [zi(b) for b in bs[:n]]
         e = P["enc"]
@@ -337,11 +339,14 @@ def decode(b0: int, b1: int, b2: int, b3: int, b4: int, b5: int, b6: int, b7: in
         ok = z3.And(*conj) if conj else z3.BoolVal(True)
         nontrivial = z3.BoolVal((not raised) and (not isnone) and n >= 2)
     if char_checked:
-        # (6): when the bytes are one well-formed character that is not a table key, the text is that character
+        # (6): when the bytes are one well-formed character that is not a key of the mode's table, the text is that character
         with NoTracing():
-            need = z3.And(WF1, z3.Not(tabC))
-        if sbool(need) and not char_ok:
+            need_u = z3.And(WF1, z3.Not(tabC))
+            need_s = z3.And(WF1, z3.Not(tabS))
+        if cu_text and not cu_char_ok and sbool(need_u):
             return _fail(5)
+        if cs_text and not cs_char_ok and sbool(need_s):
+            return _fail(6)
     return verdict(sbool(ok), sbool(nontrivial))
 
 
@@ -425,6 +430,8 @@ def concrete(fn, params, args):
     if _wf1_c(e, bs) and not tabC:
         ch = seq.decode(enc)
         ok = ok and res["CURTSIES"][1] == ch and (tabS or res["CURSES"][1] == ch)
+    if _wf1_c(e, bs) and not tabS:
+        ok = ok and res["CURSES"][1] == seq.decode(enc)
     return {"ok": ok, "observed": obs, "expected": "bytes naming == the bytes; table names for table sequences; a character as itself", "call": call}
 
 
